@@ -708,6 +708,7 @@ REGISTERED_MODULE_WRITES = {
 def n4(ck: Check) -> None:
     prog = ck.prog
     module_names: dict[str, set[str]] = {}
+    module_mutables: dict[str, dict[str, str]] = {}
     for m in prog.repo.modules.values():
         names = set()
         for s in m.tree.body:
@@ -716,6 +717,18 @@ def n4(ck: Check) -> None:
                     if isinstance(t, ast.Name):
                         names.add(t.id)
         module_names[m.name] = names
+        muts = {}
+        for s_ in m.tree.body:
+            if isinstance(s_, (ast.Assign, ast.AnnAssign)) and s_.value is not None:
+                v_ = s_.value
+                kind = "dict" if isinstance(v_, (ast.Dict, ast.DictComp)) else "list" if isinstance(v_, (ast.List, ast.ListComp)) else \
+                    "set" if isinstance(v_, (ast.Set, ast.SetComp)) else \
+                    callee_name(v_) if isinstance(v_, ast.Call) and callee_name(v_) in ("dict", "list", "set", "defaultdict", "OrderedDict", "deque") else None
+                if kind:
+                    for t in (s_.targets if isinstance(s_, ast.Assign) else [s_.target]):
+                        if isinstance(t, ast.Name):
+                            muts[t.id] = kind
+        module_mutables[m.name] = muts
     for fm in prog.models():
         f = fm.f
         for n in own_walk(f.node):
@@ -753,6 +766,36 @@ def n4(ck: Check) -> None:
                     locals_ = {x.id for x in own_walk(f.node) if isinstance(x, ast.Name) and isinstance(x.ctx, ast.Store)}
                     if nm not in locals_:
                         ck.ob("N4", fm, fm.f.stmt_of(n), False, f"module-level object `{nm}` is mutated")
+        # a module-level mutable object must not be handed out (stored in an object, returned, passed on) without a
+        # copy: whoever receives it can change it for every diagram of the process
+        mm = module_mutables.get(f.module.name, {})
+        if mm:
+            locals_ = {x.id for x in own_walk(f.node) if isinstance(x, ast.Name) and isinstance(x.ctx, ast.Store)} | set(f.params())
+            for n in own_walk(f.node):
+                if isinstance(n, ast.Name) and isinstance(n.ctx, ast.Load) and n.id in mm and n.id not in locals_:
+                    par = f.parents.get(n)
+                    leak = None
+                    if isinstance(par, (ast.Assign, ast.AnnAssign)) and par.value is n:
+                        leak = "is aliased by an assignment"
+                    elif isinstance(par, ast.Return):
+                        leak = "is returned"
+                    elif isinstance(par, ast.IfExp) and (par.body is n or par.orelse is n):
+                        leak = "is handed on by a conditional expression"
+                    elif isinstance(par, ast.BoolOp):
+                        leak = "is handed on by `or`/`and`"
+                    elif isinstance(par, ast.Call) and n in par.args and callee_name(par) not in (
+                            "copy", "deepcopy", "dict", "list", "set", "tuple", "frozenset", "sorted", "len", "isinstance", "print",
+                            "any", "all", "sum", "min", "max", "enumerate", "zip", "iter", "repr", "str"):
+                        leak = f"is passed to `{text(par.func)[:30]}`"
+                    elif isinstance(par, ast.keyword):
+                        leak = "is passed as a keyword argument"
+                    elif isinstance(par, (ast.List, ast.Tuple, ast.Set, ast.Dict)):
+                        leak = "is stored inside another object"
+                    if leak:
+                        ck.ob("N4", fm, f.stmt_of(n), False,
+                              f"the module-level {mm[n.id]} `{n.id}` {leak} without a copy: every diagram that receives it shares one "
+                              f"object, so changing a setting of one diagram (`sd.config[...] = ...`) changes all the others, "
+                              f"earlier and later ones", key=f"shared module object {n.id} in {f.name}")
         # mutable default arguments
         for p, d in f.param_defaults().items():
             if isinstance(d, (ast.List, ast.Dict, ast.Set, ast.ListComp, ast.DictComp, ast.SetComp)) or isinstance(d, ast.Call):
